@@ -319,6 +319,11 @@ func (e fixEvaluator) Lin2(op0, op1, opOut *rlwe.Ciphertext) {
 	}
 }
 
+// OUTPARAMW control: the second output is never produced
+func halfDone(r *ring.Ring, in, aOut, bOut ring.Poly) {
+	r.NTT(in, aOut)
+}
+
 // DEGLOOP control: the last component is never negated
 func (e fixEvaluator) NegHigh(op0, opOut *rlwe.Ciphertext) {
 	for i := 1; i < op0.Degree(); i++ {
